@@ -2074,6 +2074,7 @@ func (m *Machine) processQueue() Result {
 		// support for context cancelation
 		if mut.ctx != nil && mut.ctx.Err() != nil {
 			ret = append(ret, Executed)
+			m.processWhenQueue()
 
 			continue
 		}
@@ -2084,6 +2085,7 @@ func (m *Machine) processQueue() Result {
 			m.Log("eval: " + mut.evalSource)
 			mut.eval()
 			m.currentEval.Store("")
+			m.processWhenQueue()
 
 			continue
 		}
@@ -2108,6 +2110,9 @@ func (m *Machine) processQueue() Result {
 			// TODO optimize process only when ticks change (incl queue tick)
 			// TODO optimize: check sub ctxs also on canceled txs
 			m.processSubscriptions(t)
+		} else {
+			// a canceled mutation has been processed as well
+			m.processWhenQueue()
 		}
 
 		t.CleanCache()
@@ -2136,6 +2141,19 @@ func (m *Machine) processQueue() Result {
 		return Canceled
 	}
 	return ret[0]
+}
+
+// processWhenQueue releases the WhenQueue subscriptions of the queue ticks
+// processed so far, for mutations which dont reach processSubscriptions
+// (canceled, skipped or eval ones).
+func (m *Machine) processWhenQueue() {
+	m.activeStatesMx.RLock()
+	toClose := m.subs.ProcessWhenQueue(m.queueTick)
+	m.activeStatesMx.RUnlock()
+
+	for _, ch := range toClose {
+		closeSafe(ch)
+	}
 }
 
 func (m *Machine) processSubscriptions(t *Transition) {
